@@ -255,6 +255,8 @@ def argv_of(pt):
     fmt = pt.get("fmt", "tum")
     ext = {"tum": ".txt", "kitti": ".kit", "euroc": ".csv"}[fmt]
     files = ["est1" + ext] + (["est2" + ext] if pt["nfiles"] == 2 else [])
+    if fmt == "tum" and pt.get("epoch"):
+        files = [f[:-len(ext)] + "_e" + ext for f in files]
     if fmt == "euroc" and pt.get("header") is False:
         files = [f[:-len(ext)] + "_nh" + ext for f in files]
     if pt.get("names") == "affix":
@@ -263,7 +265,8 @@ def argv_of(pt):
     al = pt["align"]
     if al != "none":
         argv += ["--ref", "ref" + ("_nh" if fmt == "euroc" and pt.get(
-            "header") is False else "") + ext]
+            "header") is False else "") + (
+                "_e" if fmt == "tum" and pt.get("epoch") else "") + ext]
     if pt.get("downsample"):
         argv += ["--downsample", str(pt["downsample"])]
     if pt.get("motion_filter"):
@@ -297,9 +300,12 @@ def expected(pt):
     """-> dict name -> RTraj (incl. the reference under its stem) or raises
     pl.Refusal / pl.Ambiguous"""
     fmt = pt.get("fmt", "tum")
-    ref, est1, est2 = load_model(fmt)
+    ep = fmt == "tum" and bool(pt.get("epoch"))
+    ref, est1, est2 = load_model(fmt, EPOCH if ep else 0.0)
     n1, n2 = ("est1", "est2") if pt.get("names") != "affix" else (
         AFFIX["est1"], AFFIX["est2"])
+    if ep:
+        n1, n2 = n1 + "_e", n2 + "_e"
     if fmt == "euroc" and pt.get("header") is False:
         n1, n2 = n1 + "_nh", n2 + "_nh"
     trajs = {n1: est1}
@@ -355,7 +361,7 @@ def expected(pt):
     out = dict(trajs)
     if use_ref:
         out["ref_nh" if fmt == "euroc" and pt.get("header") is False
-            else "ref"] = ref
+            else ("ref_e" if ep else "ref")] = ref
     if pt.get("project"):
         out = {k: project_model(t, pt["project"]) for k, t in out.items()}
     return out
@@ -541,6 +547,15 @@ def points(ctx):
                 ("t_max_diff", [0.01, 0.3]), ("export", ["tum", "kitti"])]
         for q in lattice.product(proc):
             pts.append(dict(q, transform=TRANSF[0]))
+    # + the same files with epoch-sized timestamps (1.5e9 s) x every use of
+    # the reference
+    for q in lattice.product([("nfiles", [1, 2]), ("align", ALIGN),
+                              ("t_offset", [0.0, 0.125]),
+                              ("t_max_diff", [0.01, 0.3]),
+                              ("merge", [False, True])]):
+        pts.append(dict(q, transform=TRANSF[0], epoch=True,
+                        downsample=None, motion_filter=None,
+                        n_to_align=-1, project=None, export="tum"))
     # file names that contain the reference's name x every use of the
     # reference
     nm = [("names", ["affix"]), ("nfiles", [1, 2]), ("align", ALIGN),
@@ -565,7 +580,9 @@ def run(ctx):
          "full product" if ctx.thorough else
          "pairwise-covering subset + full transformation sub-lattice + full "
          "product of the processing options") +
-        "; + file names containing the reference's file name as suffix / "
+        "; + epoch-sized timestamps x nfiles x alignment x t_offset x "
+        "t_max_diff x merge; + file names containing the reference's file "
+        "name as suffix / "
         "prefix x nfiles x alignment x downsample x merge x export x project")
     acc.bounds = {"lattice_points": len(pts)}
     acc.exhaustive = True
